@@ -186,7 +186,7 @@ def run(ctx):
     ctx.mc("httpm", "Redirects", "MC_Redirects.cfg", timeout=ctx.pick(900, 3000), required_actions=["Respond", "Drop", "Timeout"])
     # (method x status x Location) with multi-valued headers / URL credentials, chains of 2 responses
     pa = ctx.gen_paths("httpm", "Gen_Redirects", "Gen_Redirects.cfg", timeout=ctx.pick(900, 3000),
-                       overrides=ctx.pick({"L": 2}, {"L": 3, "MaxRs": "{1, 2, 3}", "HdrSel": "{220, 1, 112}"}))
+                       overrides=ctx.pick({"L": 2}, {"L": 3, "Methods": '{"GET", "POST"}', "MaxRs": "{2, 3}", "Codes": "{200, 302, 303, 307}"}))
     ctx.replay(pa, red_replayer, label="s2c-red")
     # (header set x Location) for two methods and two statuses
     pb = ctx.gen_paths("httpm", "Gen_Redirects", "Gen_Redirects.cfg", timeout=ctx.pick(900, 3000),
